@@ -1,4 +1,5 @@
 """C11 - stream decorators forward each event once, change only their field, never alias."""
+import collections.abc
 import copy
 import datetime
 import queue as queue_mod
@@ -15,17 +16,46 @@ RULE = ("Hypothesis-generated trees (depth 1..3, fan-out 1..3) of CopyStreamResu
         "defaults explicit or omitted); every sink's log is compared with a pure functional model of its "
         "path, argument objects are snapshotted before/after each call; supplied timestamps include a non-UTC "
         "one and one far in the future, filled-in timestamps must lie in the real-clock window of the case, and "
-        "the process time zone (TZ) is a generated dimension. Non-trivial: fan-out >= 2 below a "
+        "the process time zone (TZ) is a generated dimension. "
+        "The event sequence may be empty; frozensets are built per call and dropped after it (so an address can "
+        "come back); besides the one bracketing run, extra startTestRun / stopTestRun calls are interleaved "
+        "(second run, double start, status after stop) and every sink must see the very same sequence of "
+        "calls; a filled-in timestamp must lie in the clock window of the call that produced it; the "
+        "StreamTagger constructor's own arguments are compared before/after construction, the caller's tag sets "
+        "once more at the end of the case; what a tagger "
+        "delivers as tags is None or a set (collections.abc.Set); a queue's routing code may be '' or None; "
+        "queues may be bounded (a blocking put lets the consumer run, a non-blocking or timed put on a full "
+        "queue raises queue.Full); one target may be listed twice in a target list (it then receives every "
+        "call twice); a small exhaustive grid pins each of these at every seed. "
+        "Non-trivial: fan-out >= 2 below a "
         "StreamTagger, or tags supplied as set/frozenset to a tree containing a tagger, or a queue in the "
         "path; distinct = distinct canonical (tree, events).")
 ASSUMPTIONS = [
     "any prefix of the ten status() parameters may be passed positionally, through every kind of tree",
     "a delivered object that the caller supplied may be the caller's own object; what is forbidden is "
     "that its value changes (caller's object mutated, or a recorded object changing after delivery)",
+    "behind a StreamTagger 'no tags' may arrive as None or as an empty set: the statement does not say "
+    "which (elsewhere an empty set stays an empty set and None stays None)",
+    "the wall clock (datetime.now) does not step backwards while one case runs (timestamp-fill windows); "
+    "POSIX only (time.tzset)",
+    "a target listed twice in one target list is two targets: it is told twice",
+    "the dict StreamToQueue puts on the queue is replayed with child.status(**item): its exact key set is "
+    "not asserted; the 'result' entry of a startTestRun / stopTestRun item must be the StreamToQueue "
+    "(its docstring)",
+    "that a dropped temporary frozenset's address is reused by the next one is a CPython detail: it only "
+    "affects sensitivity (identity-keyed caches), never the verdict on a correct tree",
 ]
 
 TAGSET = st.sets(st.sampled_from(["t", "u", "v", "w", "tag-two"]), max_size=2)
 TAGGER_FORM = st.sampled_from(["sets", "sets", "lists", "tuple+frozenset", "iterators", "positional", "none-if-empty", "omit-if-empty"])
+DUP = st.one_of(st.none(), st.none(), st.none(), st.none(), st.none(), st.integers(0, 2))
+
+
+def _with_dup(kids, d):
+    """One target of the list may be listed once more (the same object, as a later sibling)."""
+    if d is None or len(kids) >= 3:
+        return kids
+    return kids + [{"t": "dup", "ref": d % len(kids)}]
 
 
 def node(depth):
@@ -33,13 +63,15 @@ def node(depth):
     ff = st.builds(lambda: {"t": "failfast"})
     if depth == 0:
         return st.one_of(sink, sink, ff)
-    kids = st.lists(node(depth - 1), min_size=1, max_size=3)
+    kids = st.builds(_with_dup, st.lists(node(depth - 1), min_size=1, max_size=3), DUP)
     return st.one_of(
         sink,
         st.builds(lambda c: {"t": "copy", "children": c}, kids),
         st.builds(lambda c, a, d, f: {"t": "tagger", "children": c, "add": sorted(a), "discard": sorted(d), "form": f}, kids, TAGSET, TAGSET, TAGGER_FORM),
         st.builds(lambda c: {"t": "ts", "child": c}, node(depth - 1)),
-        st.builds(lambda c, code: {"t": "queue", "child": c, "code": code}, node(depth - 1), st.sampled_from(["0", "1", "q", "10", None])),   # None: nothing to prefix (ConcurrentStreamTestSuite allows it)
+        # None: nothing to prefix (ConcurrentStreamTestSuite allows it); "": prefixed all the same ("/x")
+        st.builds(lambda c, code, b: {"t": "queue", "child": c, "code": code, "bound": b}, node(depth - 1),
+                  st.sampled_from(["0", "1", "q", "10", None, ""]), st.sampled_from([0, 0, 0, 1, 2])),
     )
 
 
@@ -53,7 +85,12 @@ def _has(tree, kinds):
 TREE = st.one_of(node(1), node(2), node(3))
 NODE1 = node(1)
 ROUTE11 = st.one_of(streams.ROUTE, st.just(""))       # "" is not None: StreamToQueue documents "otherwise it is prefixed"
-EVENTS = st.lists(streams.event(routes=ROUTE11, stamps=(None, None, 0, 1, 2, "tz", "tz", "future", "usec", "naive")), min_size=1, max_size=8)
+EVENTS = st.lists(streams.event(routes=ROUTE11, stamps=(None, None, 0, 1, 2, "tz", "tz", "future", "usec", "naive")), min_size=0, max_size=8)
+# calls of the run protocol besides the bracket: {"at": k, "op": ...} is made before the k-th status call
+# (k == number of calls: after the last one, before the closing stopTestRun; beyond: after it)
+EXTRA = st.one_of(st.just([]), st.just([]), st.just([]),
+                  st.lists(st.builds(lambda at, op: {"at": at, "op": op}, st.integers(0, 9),
+                                     st.sampled_from(["startTestRun", "stopTestRun"])), min_size=1, max_size=3))
 
 
 @st.composite
@@ -68,42 +105,90 @@ def s_case(draw):
                       "omit_defaults": draw(st.booleans()),
                       "reuse_set": draw(st.booleans())})       # the caller refills one scratch set instead of building a new one
     return {"tree": tree, "calls": calls, "bracket": draw(st.sampled_from(["run", "run", "none"])),
+            "extra": draw(EXTRA),
             "drain": draw(st.sampled_from(["each", "each", "end"])),       # queues consumed after every call, or only at the end
             "TZ": draw(st.sampled_from(["UTC", "JST-9", "EST5EDT", "UTC"]))}     # the process's local time zone
 
 
-class FailFastLeaf:
-    pass
+class QueueItemError(Exception):
+    """What a StreamToQueue put on its queue is not what its docstring describes."""
 
 
-def build(tree, sinks, queues, path, ffs):
+class HQueue(queue_mod.Queue):
+    """queue.Queue whose put() honours block / timeout without a second thread: while a blocking put
+    waits on a full queue the consumer gets its turn; a non-blocking or timed put on a full queue meets
+    a consumer that is a moment too late: it gets queue.Full (without waiting), and the consumer runs
+    right afterwards (so a producer that tries again gets through)."""
+
+    def __init__(self, maxsize=0):
+        super().__init__(maxsize)
+        self.consume = None
+
+    def put(self, item, block=True, timeout=None):
+        if self.maxsize > 0 and self.full():
+            self.consume()
+            if not block or timeout is not None:
+                raise queue_mod.Full
+        super().put(item, block, timeout)
+
+
+def build(tree, sinks, queues, path, ffs, vs):
+    """sinks: [recorder, path, multiplicity]; ffs: {"count", "path", "mult"}"""
     from testtools.testresult.real import (CopyStreamResult, StreamTagger, TimestampingStreamResult,
                                            StreamFailFast, StreamToQueue)
     t = tree["t"]
     if t == "sink":
         r = streams.Recorder("s%d" % len(sinks))
-        sinks.append((r, list(path)))
+        sinks.append([r, list(path), 1])
         return r
     if t == "failfast":
-        rec = {"count": 0, "path": list(path)}
+        rec = {"count": 0, "path": list(path), "mult": 1}
         ffs.append(rec)
 
         def cb():
             rec["count"] += 1
-        return StreamFailFast(cb)
+        return StreamFailFast(on_error=cb) if tree.get("kw") else StreamFailFast(cb)
+
+    def build_kids(p):
+        kids, spans, again = [], [], {}
+        for c in tree["children"]:
+            if c["t"] == "dup" and kids:
+                k = c["ref"] % len(kids)
+                kids.append(kids[k])
+                spans.append(None)
+                again[k] = again.get(k, 0) + 1
+                continue
+            if c["t"] == "dup":
+                c = {"t": "sink"}
+            s0, f0 = len(sinks), len(ffs)
+            kids.append(build(c, sinks, queues, p, ffs, vs))
+            spans.append((s0, len(sinks), f0, len(ffs)))
+        for k, n in again.items():
+            s0, s1, f0, f1 = spans[k]
+            for i in range(s0, s1):
+                sinks[i][2] *= 1 + n
+            for i in range(f0, f1):
+                ffs[i]["mult"] *= 1 + n
+        return kids
+
     if t == "copy":
-        return CopyStreamResult([build(c, sinks, queues, path, ffs) for c in tree["children"]])
+        return CopyStreamResult(targets=build_kids(path)) if tree.get("kw") else CopyStreamResult(build_kids(path))
     if t == "tagger":
         p = path + [("tagger", frozenset(tree["add"]), frozenset(tree["discard"]))]
         add, discard = set(tree["add"]), set(tree["discard"])
-        kids = [build(c, sinks, queues, p, ffs) for c in tree["children"]]
+        kids = build_kids(p)
         form = tree.get("form", "sets")
+        held = [("add", add, set(add)), ("discard", discard, set(discard))]     # (name, the caller's object, its value)
         # "add" / "discard" are documented as None or any iterable of tags
         if form == "lists":
-            tagger = StreamTagger(kids, add=sorted(add), discard=sorted(discard))
+            la, ld = sorted(add), sorted(discard)
+            held = [("add", la, list(la)), ("discard", ld, list(ld))]
+            tagger = StreamTagger(kids, add=la, discard=ld)
         elif form == "tuple+frozenset":
+            held = []
             tagger = StreamTagger(kids, add=tuple(sorted(add)), discard=frozenset(discard))
         elif form == "iterators":
+            held = []
             tagger = StreamTagger(kids, add=iter(sorted(add)), discard=(x for x in sorted(discard)))
         elif form == "positional":
             tagger = StreamTagger(kids, add, discard)
@@ -116,8 +201,14 @@ def build(tree, sinks, queues, path, ffs):
             if discard:
                 kw["discard"] = discard
             tagger = StreamTagger(kids, **kw)
+        elif tree.get("kw"):
+            tagger = StreamTagger(targets=kids, add=add, discard=discard)
         else:
             tagger = StreamTagger(kids, add=add, discard=discard)
+        for name, obj, was in held:
+            if obj != was:
+                vs.append(V("caller-args", "ctor-mutated-" + name,
+                            "StreamTagger(..., form %s) changed the caller's %s argument from %r to %r" % (form, name, was, obj)))
         # the constructor's arguments stay the caller's: what the caller does with them later is not the tagger's business
         add.add("LATER-ADDED")
         discard.update(("t", "u", "v", "w"))
@@ -125,11 +216,13 @@ def build(tree, sinks, queues, path, ffs):
         discard.clear()
         return tagger
     if t == "ts":
-        return TimestampingStreamResult(build(tree["child"], sinks, queues, path + [("ts",)], ffs))
+        inner = build(tree["child"], sinks, queues, path + [("ts",)], ffs, vs)
+        return TimestampingStreamResult(target=inner) if tree.get("kw") else TimestampingStreamResult(inner)
     if t == "queue":
-        q = queue_mod.Queue()
-        child = build(tree["child"], sinks, queues, path + [("queue", tree["code"])], ffs)
-        s = StreamToQueue(q, tree["code"])
+        q = HQueue(tree.get("bound", 0))
+        child = build(tree["child"], sinks, queues, path + [("queue", tree["code"])], ffs, vs)
+        s = StreamToQueue(queue=q, routing_code=tree["code"]) if tree.get("kw") else StreamToQueue(q, tree["code"])
+        q.consume = lambda: drain([(q, child, s)])
         queues.append((q, child, s))
         return s
     raise AssertionError(t)
@@ -143,13 +236,16 @@ def drain(queues):
         for q, child, s in queues:
             while not q.empty():
                 progress = True
-                item = dict(q.get())
+                item = q.get()
+                if not isinstance(item, dict) or item.get("event") not in ("status", "startTestRun", "stopTestRun"):
+                    raise QueueItemError("StreamToQueue put %r on its queue" % (item,))
+                item = dict(item)
                 kind = item.pop("event")
                 if kind == "status":
                     child.status(**item)
                 else:
                     if item.get("result") is not s:
-                        raise AssertionError("queue event carries wrong result")
+                        raise QueueItemError("the %s item on the queue carries result=%r, not the StreamToQueue that was called" % (kind, item.get("result")))
                     getattr(child, kind)()
 
 
@@ -191,74 +287,137 @@ def run_case(spec):
         time.tzset()
 
 
+def op_list(spec):
+    """The calls made on the root, in order: ("startTestRun",) / ("stopTestRun",) / ("status", index of the call)."""
+    n = len(spec["calls"])
+    extra = sorted(((min(e["at"], n + 1), j, e["op"]) for j, e in enumerate(spec.get("extra") or ())))
+    ops = []
+    if spec["bracket"] == "run":
+        ops.append(("startTestRun",))
+    for i in range(n + 2):
+        ops.extend((op,) for at, _, op in extra if at == i)
+        if i < n:
+            ops.append(("status", i))
+        elif i == n and spec["bracket"] == "run":
+            ops.append(("stopTestRun",))
+    return ops
+
+
 def _run_case(spec):
     vs = []
     sinks, queues, ffs = [], [], []
-    root = build(spec["tree"], sinks, queues, [], ffs)
-    t_start = datetime.datetime.now(streams.UTC)
-    if spec["bracket"] == "run":
-        root.startTestRun()
-        drain(queues)
-    caller_objs = []
+    try:
+        root = build(spec["tree"], sinks, queues, [], ffs, vs)
+    except TypeError as e:      # a documented constructor parameter (positional or by its name) was refused
+        return Case([V("forward", "constructor-raises-TypeError", "building %r raised %r" % (spec["tree"], e))], True, ["raised"])
+    ops = op_list(spec)
+    late = spec.get("drain") == "end"
+    window = {}          # index of the call -> (clock before the call, clock after it and its drain)
     scratch = set()
-    for call in spec["calls"]:
+    kept = []            # (index of the call, the caller's set, its value): sets stay alive and are looked at again at the end
+    t_start = datetime.datetime.now(streams.UTC)
+    for op in ops:
+        if op[0] != "status":
+            try:
+                getattr(root, op[0])()
+                if not late:
+                    drain(queues)
+            except QueueItemError as e:
+                vs.append(V("forward", "queue-item", str(e)))
+                return Case(vs, True, ["raised"])
+            except Exception as e:
+                vs.append(V("forward", "raises-%s-%s" % (type(e).__name__, op[0]), "%s() raised %r" % (op[0], e)))
+                return Case(vs, True, ["raised"])
+            continue
+        call = spec["calls"][op[1]]
         kw = streams.kwargs_of(call["ev"])
+        if isinstance(kw["test_tags"], frozenset):
+            kw["test_tags"] = frozenset(list(kw["test_tags"]))     # a temporary of this call, not the spec's own object
         if call.get("reuse_set") and isinstance(kw["test_tags"], set):
-            scratch.clear()
-            scratch.update(kw["test_tags"])
-            kw["test_tags"] = scratch
+            if late:
+                kw["test_tags"] = set(kw["test_tags"])      # a late consumer and a refilled scratch set do not go together
+            else:
+                scratch.clear()
+                scratch.update(kw["test_tags"])
+                kw["test_tags"] = scratch
         before = copy.deepcopy(kw)
         args = [kw[f] for f in streams.FIELDS[:call["npos"]]]
         rest = {f: kw[f] for f in streams.FIELDS[call["npos"]:]}
         if call["omit_defaults"]:
             rest = {f: v for f, v in rest.items() if v != DEFAULTS[f] or isinstance(v, (set, frozenset))}
-        if spec.get("drain") == "end" and kw["test_tags"] is scratch:
-            kw["test_tags"] = set(scratch)      # a late consumer and a refilled scratch set do not go together
-            before = copy.deepcopy(kw)
-            args = [kw[f] for f in streams.FIELDS[:call["npos"]]]
-            rest = {f: kw[f] for f in streams.FIELDS[call["npos"]:]}
-            if call["omit_defaults"]:
-                rest = {f: v for f, v in rest.items() if v != DEFAULTS[f] or isinstance(v, (set, frozenset))}
+        t0 = datetime.datetime.now(streams.UTC)
         try:
             root.status(*args, **rest)
-            if spec.get("drain") != "end":
+            if not late:
                 drain(queues)
+        except QueueItemError as e:
+            vs.append(V("forward", "queue-item", str(e)))
+            return Case(vs, True, ["raised"])
         except Exception as e:
             kind = type(call["ev"]["test_tags"]).__name__
             vs.append(V("forward", "raises-%s-tags=%s" % (type(e).__name__, kind),
                         "status(%r) raised %r" % (call["ev"], e)))
             return Case(vs, True, ["raised"])
+        window[op[1]] = (t0, datetime.datetime.now(streams.UTC))
         if kw != before:
             changed = [f for f in kw if kw[f] != before[f]]
             vs.append(V("caller-args", "mutated-" + ",".join(changed),
                         "caller's argument %s changed from %r to %r" % (changed, {f: before[f] for f in changed}, {f: kw[f] for f in changed})))
-        caller_objs.append(kw)
-    if spec["bracket"] == "run":
-        root.stopTestRun()
-    drain(queues)
+        if isinstance(kw["test_tags"], set) and kw["test_tags"] is not scratch:
+            kept.append((op[1], kw["test_tags"], frozenset(kw["test_tags"])))
+        # the caller's temporaries die here, its frozenset last (CPython then hands the address to the next one)
+        before = args = rest = None
+        kw = None
+    try:
+        drain(queues)
+    except QueueItemError as e:
+        vs.append(V("forward", "queue-item", str(e)))
+        return Case(vs, True, ["raised"])
+    except Exception as e:
+        vs.append(V("forward", "raises-%s-consumer" % type(e).__name__, "consuming the queues raised %r" % (e,)))
+        return Case(vs, True, ["raised"])
     t_end = datetime.datetime.now(streams.UTC)
+    for i, obj, was in kept:
+        if obj != was:
+            vs.append(V("caller-args", "mutated-later-test_tags", "the set the caller passed as test_tags of call %d was %r after the call and is %r at the end" % (i, set(was), obj)))
+            break
 
     inputs = [streams.norm_event(c["ev"]) for c in spec["calls"]]
-    for rec, path in sinks:
-        want = [model_path(ev, path) for ev in inputs]
-        got = rec.statuses()
-        starts = sum(1 for e in rec.events if e[0] == "startTestRun")
-        stops = sum(1 for e in rec.events if e[0] == "stopTestRun")
-        exp = 1 if spec["bracket"] == "run" else 0
-        if (starts, stops) != (exp, exp):
-            vs.append(V("forward", "start-stop-count", "sink got %d startTestRun / %d stopTestRun, expected %d each" % (starts, stops, exp)))
-        elif exp and (rec.events[0][0] != "startTestRun" or rec.events[-1][0] != "stopTestRun"):
-            vs.append(V("forward", "start-stop-order", "startTestRun/stopTestRun not bracketing the events: %r" % [e[0] for e in rec.events]))
-        if len(got) != len(want):
-            vs.append(V("forward", "event-count", "sink behind %r got %d status calls, %d were sent" % (path, len(got), len(want))))
+    for rec, path, mult in sinks:
+        kinds = [p[0] for p in path]
+        tagged = "tagger" in kinds
+        # the fill happens inside the call unless a queue that is consumed late sits above the first timestamper
+        in_call = not late or ("ts" in kinds and "queue" not in kinds[:kinds.index("ts")])
+        want_ops = [op for op in ops for _ in range(mult)]
+        got_ops = [e[0] for e in rec.events]
+        if got_ops != [op[0] for op in want_ops]:
+            for name in ("startTestRun", "stopTestRun"):
+                if got_ops.count(name) != sum(1 for op in want_ops if op[0] == name):
+                    vs.append(V("forward", "start-stop-count", "sink behind %r got %d %s, expected %d (calls made on the root: %r, each due %d time(s))" % (
+                        path, got_ops.count(name), name, sum(1 for op in want_ops if op[0] == name), [op[0] for op in ops], mult)))
+                    break
+            else:
+                if got_ops.count("status") != len(spec["calls"]) * mult:
+                    vs.append(V("forward", "event-count", "sink behind %r got %d status calls, %d were sent (each due %d time(s))" % (path, got_ops.count("status"), len(spec["calls"]), mult)))
+                else:
+                    vs.append(V("forward", "start-stop-order", "sink behind %r saw %r, the root was called %r (each due %d time(s))" % (path, got_ops, [op[0] for op in ops], mult)))
             continue
-        for i, (g, w) in enumerate(zip(got, want)):
+        got = rec.statuses()
+        want_idx = [op[1] for op in want_ops if op[0] == "status"]
+        for n, (g, i) in enumerate(zip(got, want_idx)):
+            w = model_path(inputs[i], path)
             for f in streams.FIELDS:
                 if w[f] == NOW:
                     tsv = g[f]
+                    lo, hi = window[i][0], (window[i][1] if in_call else t_end)
                     if not (isinstance(tsv, datetime.datetime) and tsv.tzinfo is not None
                             and tsv.utcoffset() == datetime.timedelta(0) and t_start <= tsv <= t_end):
                         vs.append(V("field", "timestamp-fill", "missing timestamp filled with %r (not a current UTC datetime)" % (tsv,)))
+                    elif not lo <= tsv <= hi:
+                        vs.append(V("field", "timestamp-fill-not-current", "event %d: missing timestamp filled with %r, the call ran from %r to %r" % (i, tsv, lo, hi)))
+                elif f == "test_tags" and tagged and not w[f]:
+                    if g[f]:
+                        vs.append(V("field", "tags-test_tags", "event %d field %s: sink behind %r received %r, model says no tags" % (i, f, path, g[f])))
                 elif g[f] != w[f] or (f == "timestamp" and g[f] is not None and g[f].isoformat() != w[f].isoformat()):
                     owner = {"test_tags": "tags", "timestamp": "timestamp", "route_code": "route"}.get(f, "other")
                     vs.append(V("field", "%s-%s" % (owner, f), "event %d field %s: sink behind %r received %r, model says %r" % (i, f, path, g[f], w[f])))
@@ -267,14 +426,17 @@ def _run_case(spec):
             lt = live["test_tags"]
             if lt is scratch:
                 continue        # the caller's own set, refilled by the caller
+            if lt is not None and not isinstance(lt, collections.abc.Set):
+                vs.append(V("field", "tags-container", "sink behind %r received its tags as %s %r: neither None nor a set" % (path, type(lt).__name__, lt)))
+                break
             if (None if lt is None else frozenset(lt)) != snap["test_tags"]:
                 vs.append(V("alias", "delivered-tags-changed-later",
                             "tags delivered to sink behind %r changed after delivery: %r -> %r" % (path, snap["test_tags"], lt)))
                 break
     nfail = sum(1 for c in spec["calls"] if c["ev"]["test_status"] in ("fail", "uxsuccess"))
     for ff in ffs:
-        if ff["count"] != nfail:
-            vs.append(V("failfast", "callback-count", "failure callback fired %d times for %d fail/uxsuccess events" % (ff["count"], nfail)))
+        if ff["count"] != nfail * ff["mult"]:
+            vs.append(V("failfast", "callback-count", "failure callback fired %d times for %d fail/uxsuccess events (each due %d time(s))" % (ff["count"], nfail, ff["mult"])))
 
     def fan_below_tagger(t, below=False):
         kids = t.get("children") or ([t["child"]] if "child" in t else [])
@@ -287,10 +449,113 @@ def _run_case(spec):
     nt = fan_below_tagger(spec["tree"]) or (has_tagger and settags) or _has(spec["tree"], ("queue",))
     labels = ["tagger" if has_tagger else "no-tagger", "queue" if _has(spec["tree"], ("queue",)) else "no-queue",
               "ts" if _has(spec["tree"], ("ts",)) else "no-ts", "sinks=%d" % len(sinks), "failfast=%d" % len(ffs),
-              "settags" if settags else "no-settags", "TZ=" + spec.get("TZ", "UTC")]
+              "settags" if settags else "no-settags", "TZ=" + spec.get("TZ", "UTC"),
+              "events=0" if not spec["calls"] else "events>0", "extra-ops" if spec.get("extra") else "plain-bracket",
+              "dup" if _has(spec["tree"], ("dup",)) else "no-dup"]
     return Case(vs, nt, labels, {"sinks": len(sinks)})
+
+
+# ---------------------------------------------------------------------------------------------------------
+# a small exhaustive grid: every edge the random trees reach only now and then, at every seed
+
+def _ev(tags=None, status="success", stamp=None, route=None, test_id="a"):
+    return {"test_id": test_id, "test_status": status, "test_tags": tags, "runnable": True, "route_code": route,
+            "timestamp": stamp, "file_name": None, "file_bytes": None, "eof": False, "mime_type": None}
+
+
+def _calls(evs, npos=0):
+    return [{"ev": e, "npos": npos, "omit_defaults": False, "reuse_set": False} for e in evs]
+
+
+def _spec(tree, evs, bracket="run", extra=(), drain_="each", npos=0):
+    return {"tree": tree, "calls": _calls(evs, npos), "bracket": bracket, "extra": list(extra), "drain": drain_, "TZ": "UTC"}
+
+
+def _unary(kind, inner=None, **kw):
+    inner = inner or {"t": "sink"}
+    if kind == "copy":
+        return {"t": "copy", "children": [inner]}
+    if kind == "tagger":
+        return {"t": "tagger", "children": [inner], "add": kw.get("add", ["x"]), "discard": kw.get("discard", []), "form": kw.get("form", "sets")}
+    if kind == "ts":
+        return {"t": "ts", "child": inner}
+    return {"t": "queue", "child": inner, "code": kw.get("code", "q"), "bound": kw.get("bound", 0)}
+
+
+def _enum_edges():
+    S = {"t": "sink"}
+    FF = {"t": "failfast"}
+    kinds = ("copy", "tagger", "ts", "queue")
+    # temporary frozensets of equal size, one per event, through a tagger (root, and below another decorator)
+    for tags in (["t", "u", "v", "w"], ["tu", "uv", "vw", "wt", "tu"]):
+        evs = [_ev(frozenset([x])) for x in tags]
+        for npos in (0, 3):
+            yield _spec(_unary("tagger"), evs, npos=npos)
+            yield _spec(_unary("copy", _unary("tagger", add=[], discard=["z"])), evs, npos=npos)
+            yield _spec(_unary("tagger", {"t": "copy", "children": [S, S]}, add=["t"], discard=["u"]), evs, npos=npos, bracket="none")
+    yield _spec(_unary("tagger"), [_ev(frozenset(["t", "u"])), _ev(frozenset(["u", "v"])), _ev(frozenset(["v", "w"]))])
+    # a run without events; the run protocol beyond one bracket
+    protocols = [("run", []), ("none", [{"at": 0, "op": "startTestRun"}]), ("none", [{"at": 9, "op": "stopTestRun"}]),
+                 ("run", [{"at": 1, "op": "stopTestRun"}, {"at": 1, "op": "startTestRun"}]),      # two runs
+                 ("run", [{"at": 0, "op": "startTestRun"}]),                                        # started twice
+                 ("run", [{"at": 9, "op": "stopTestRun"}]),                                         # stopped twice
+                 ("run", [{"at": 1, "op": "stopTestRun"}]),                                         # status after stopTestRun
+                 ("none", [{"at": 1, "op": "startTestRun"}]),                                       # status before startTestRun
+                 ("run", [{"at": 9, "op": "startTestRun"}, {"at": 9, "op": "stopTestRun"}])]        # an empty second run
+    for kind in kinds:
+        for inner in (S, {"t": "copy", "children": [S, FF]}):
+            for drain_ in ("each", "end"):
+                if drain_ == "end" and kind != "queue":
+                    continue
+                for bracket, extra in protocols:
+                    for evs in ([], [_ev(status="fail"), _ev({"t"}, test_id="b")]):
+                        yield _spec(_unary(kind, inner), evs, bracket=bracket, extra=extra, drain_=drain_)
+    # the tagger's constructor arguments: a tag both added and discarded, in every form
+    for form in ("sets", "lists", "tuple+frozenset", "iterators", "positional", "none-if-empty", "omit-if-empty"):
+        for add, discard in ((["t", "u"], ["u"]), (["t"], ["t"]), ([], ["t"]), (["tag-two"], [])):
+            yield _spec(_unary("tagger", add=add, discard=discard, form=form), [_ev({"t", "u"}), _ev(None), _ev(set()), _ev(frozenset())])
+    # routing codes of the queue x route codes of the event
+    for code in ("", None, "0", "10"):
+        for drain_ in ("each", "end"):
+            yield _spec(_unary("queue", code=code), [_ev(route=r) for r in (None, "", "x", "x/1", "/", "x/")], drain_=drain_)
+            yield _spec(_unary("queue", _unary("queue", code=code), code=""), [_ev(route=r) for r in (None, "", "x")], drain_=drain_)
+    # filled timestamps call by call
+    for tree in (_unary("ts"), _unary("copy", _unary("ts")), _unary("ts", _unary("queue")), _unary("queue", _unary("ts")),
+                 _unary("ts", _unary("ts"))):
+        for drain_ in ("each", "end"):
+            for npos in (0, 10):
+                yield _spec(tree, [_ev(stamp=None, test_id=i) for i in "abc"] + [_ev(stamp=1), _ev(stamp=None)], drain_=drain_, npos=npos)
+    # bounded queues with a consumer that only runs when it has to (or at the end)
+    for bound in (1, 2):
+        for drain_ in ("each", "end"):
+            for bracket in ("run", "none"):
+                evs = [_ev(test_id=i, status=s) for i, s in zip("abcab", ("inprogress", "fail", "success", "success", "uxsuccess"))]
+                yield _spec(_unary("queue", bound=bound), evs, drain_=drain_, bracket=bracket)
+                yield _spec(_unary("queue", _unary("queue", {"t": "copy", "children": [S, FF]}, bound=1, code="1"), bound=bound), evs, drain_=drain_, bracket=bracket)
+                yield _spec(_unary("copy", {"t": "copy", "children": [_unary("queue", bound=bound), S]}), evs, drain_=drain_, bracket=bracket)
+    # constructor parameters by keyword
+    for kind in kinds:
+        for inner in (S, FF):
+            t = _unary(kind, dict(inner, kw=True))
+            t["kw"] = True
+            yield _spec(t, [_ev({"t"}, status="fail"), _ev(None, test_id="b")])
+    # one target listed twice
+    D0 = {"t": "dup", "ref": 0}
+    for kind in ("copy", "tagger"):
+        for first in (S, FF, _unary("ts"), _unary("queue"), _unary("tagger", add=["y"]), {"t": "copy", "children": [S, D0]}):
+            for kids in ([first, D0], [first, D0, D0], [first, S, D0], [S, first, {"t": "dup", "ref": 1}]):
+                for drain_ in ("each", "end"):
+                    if drain_ == "end" and not _has(first, ("queue",)):
+                        continue
+                    t = _unary(kind)
+                    t["children"] = kids
+                    yield _spec(t, [_ev({"t"}, status="fail"), _ev(None, test_id="b")], drain_=drain_)
+                    yield _spec(t, [], drain_=drain_)
 
 
 def subchecks(tier):
     q = tier == "quick"
-    return [Sub("decorator_trees", run_case, s_case(), 3500 if q else 120000)]
+    return [Sub("decorator_trees", run_case, s_case(), 3500 if q else 120000),
+            Sub("edge_grid", run_case, enum=_enum_edges, enum_complete=True,
+                note="empty runs, run protocol, temporary frozensets, constructor arguments, '' / None routing codes, "
+                     "per-call timestamp windows, bounded queues, a target listed twice, constructors called by keyword")]
